@@ -375,6 +375,46 @@ def run_cardops(job, R):
                         R.viol.append(V('card-argument-form', f'holes {h0} {h1} board {bd}: form {n0} leads to a different state than {ref[2]}',
                                         {'holes': [h0, h1], 'board': bd, 'form': n0}, n0))
                 R.classes.add(('cardops', h0, h1, bd))
+    # one card per call, incl. unknown and half-unknown cards, as text / bare Card object / list / tuple / iterator
+    def single_forms(t):
+        c = next(Card.parse(t))
+        return [('text', t), ('card-object', c), ('list', [c]), ('tuple', (c,)), ('iterator', iter([c])), ('text-padded', f' {t} ')]
+    for t in ['Ts', '??', 'A?', '?s', '10h']:
+        for where in ('hole', 'burn', 'board'):
+            ref = None
+            for name, f in single_forms(t):
+                R.evals += 1
+                st = fresh()
+                try:
+                    if where == 'hole':
+                        st.deal_hole(f)
+                    else:
+                        st.deal_hole('2c3c')
+                        st.deal_hole('2d3d')
+                        st.check_or_call()
+                        st.check_or_call()
+                        if where == 'burn':
+                            st.burn_card(f)
+                        else:
+                            st.burn_card('??')
+                            st.deal_board('4c4d4h')
+                            st.check_or_call()
+                            st.check_or_call()
+                            st.burn_card('??')
+                            st.deal_board(f)
+                except Exception as exc:
+                    R.viol.append(V('card-argument-form-raised', f'{where} card {t} as {name}: {type(exc).__name__}: {exc}',
+                                    {'card': t, 'where': where, 'form': name}, name))
+                    continue
+                snap = canon.snapshot(st)
+                ops = [repr(op) for op in st.operations]
+                if ref is None:
+                    ref = (snap, ops, name)
+                elif snap != ref[0] or ops != ref[1]:
+                    diff = [(a, b) for a, b in zip(ops, ref[1]) if a != b][:1]
+                    R.viol.append(V('card-argument-form', f'{where} card {t}: form {name} leads to a different state than {ref[2]} ({diff}; '
+                                    f'deck {len(st.deck_cards)} cards)', {'card': t, 'where': where, 'form': name}, name))
+            R.classes.add(('single-card', t, where))
     # discards and shown cards
     def draw():
         return pk.NoLimitDeuceToSevenLowballSingleDraw.create_state(
